@@ -75,7 +75,7 @@ func (delegWithdrawRewardsTx) Validate(ctx *action.Context, signedTx action.Sign
 	if !ok {
 		return false, errors.Wrap(action.ErrInvalidCurrency, withdraw.Amount.Currency)
 	}
-	if currency.Name != withdraw.Amount.Currency {
+	if currency.Name != withdraw.Amount.Currency || !withdraw.Amount.IsValid(ctx.Currencies) {
 		return false, errors.Wrap(action.ErrInvalidAmount, withdraw.Amount.String())
 	}
 
